@@ -570,6 +570,34 @@ def _missing_et(ctx, chk, load):
         if anti is None:
             chk.indeterminate("C11.O4", where_of(f, s.call), "missing-ET query is not a recognisable anti-join")
             continue
+        # any further restriction of the grid instants examined must not exclude a step that gets an ET row
+        restricted = None
+        ins_bound = None
+        for s_ins in sites:
+            q_ins = s_ins.stmt.select
+            if q_ins is not None:
+                for pr in conjuncts(q_ins.where):
+                    if pr[0] == "bin" and pr[1] in ("<=", "<") and pr[2][0] == "col" and pr[2][2] == "epoch" and pr[3][0] == "param":
+                        pn_ = s_ins.params_node
+                        if isinstance(pn_, ast.Tuple) and isinstance(pr[3][1], int) and pr[3][1] < len(pn_.elts):
+                            ins_bound = (pr[1], ast.unparse(pn_.elts[pr[3][1]]))
+        for pr in conjuncts(s.stmt.where):
+            if pr[0] == "bin" and pr[1] in ("<", "<=", ">", ">=", "=", "!=") and pr[2][0] == "col" and pr[2][2] == "epoch" and pr[3][0] == "param":
+                pn_ = s.params_node
+                btxt = ast.unparse(pn_.elts[pr[3][1]]) if isinstance(pn_, ast.Tuple) and isinstance(pr[3][1], int) and pr[3][1] < len(pn_.elts) else "?"
+                restricted = (pr[1], btxt)
+        cover_ok = True
+        cdesc = "all grid instants are examined"
+        if restricted is not None:
+            # acceptable: exactly the INSERT's own bound, or a weaker one
+            cover_ok = ins_bound is not None and restricted == ins_bound
+            if not cover_ok and ins_bound is not None and restricted[0] == "<" and ins_bound[0] == "<=" \
+                    and restricted[1].replace("-2", "-1") == ins_bound[1].replace("-2", "-1") and restricted[1].endswith("[-1]"):
+                cover_ok = True
+            cdesc = "grid instants examined: epoch %s %s; ET rows are inserted for epoch %s %s" % (restricted + (ins_bound or ("?", "?")))
+        chk.ob("C11.O4", cover_ok, where_of(f, s.call), cdesc,
+               "every grid step that gets an ET row is examined for missing ET", key="load|missing-et-coverage",
+               why="ET missing exactly at an unexamined step is accepted silently: evapotranspiration ends up one row short")
         chk.ob("C11.O4", anti and pol_ok and dom, where_of(f, g.stmt),
                "guard raises when %s%s; query is %s; dominates %d/%d ET INSERTs"
                % ("not " if g.negated else "", ast.unparse(g.expr),
